@@ -137,6 +137,10 @@ Definition nat_str (n : nat) : string :=
               if (n / 10 =? 0)%N then d else go f (n / 10)%N d
      end) 20%nat (N.of_nat n) "".
 
+(** the VALUES alias (a1, a2, ...) and CTE names are generated per DataFrame, so the check compares the
+    structure with the contents of quoted identifiers erased as well (their number and positions stay) *)
+Definition erase_names (t : tok) : tok := match t with TI _ => TI [] | x => x end.
+
 Section StmtCheck.
   Variable lch : chain lact.
   Variable fch : chain fact.
@@ -153,7 +157,7 @@ Section StmtCheck.
         (* the statement may contain further literals (e.g. CTE wrappers repeat nothing); exact match required *)
         "1" ++ b2s (list_eqb ueqb (strs ts) want)
             ++ b2s (match lex_stmt (decode (s_base c)) with
-                    | Some tb => list_eqb tok_eqb (skeleton ts) (skeleton tb)
+                    | Some tb => list_eqb tok_eqb (map erase_names (skeleton ts)) (map erase_names (skeleton tb))
                     | None => false
                     end)
             ++ ":" ++ nat_str (count_ts ts)
